@@ -638,8 +638,9 @@ def plan(tier):
     jobs.append(("mc", "Neg_vecpop", "Laws"))
     jobs.append(("mc", "Neg_merge", "Laws"))
     if tier == "quick":
-        tree = {"vec": (3, 1, None), "map": (3, 6, None), "set": (3, 2, None), "list": (4, 6, None), "queue": (4, 6, None)}
-        nsim, per = 3, 40
+        # sized for <= ~90 s on 16 idle cores: every job is its own TLC JVM
+        tree = {"vec": (3, 1, None), "map": (3, 4, None), "set": (3, 2, None), "list": (4, 4, None), "queue": (3, 1, None)}
+        nsim, per = 2, 40
     else:
         # (depth, number of shards, shards that are run: None = all)
         tree = {"vec": (4, 16, None), "map": (4, 64, list(range(0, 64, 8))), "set": (4, 16, None),
